@@ -134,6 +134,66 @@ func isToLowerOf(v ssa.Value, arg ssa.Value) bool {
 	return flow.StripConv(c.Call.Args[0]) == arg || c.Call.Args[0] == arg
 }
 
+// assignViaParser: the stored value is result 0 of a parse function of the package applied to the input (or to its
+// lower-case form), stored only behind the function's success (second result true / nil error); every success return of
+// that function yields a value that satisfies okAssign with respect to the function's own parameter.
+func assignViaParser(st *ssa.Store, s ssa.Value, okAssign func(v ssa.Value, blk *ssa.BasicBlock, in ssa.Value, lowered bool) bool) bool {
+	ex, ok := st.Val.(*ssa.Extract)
+	if !ok || ex.Index != 0 {
+		return false
+	}
+	hc, ok := ex.Tuple.(*ssa.Call)
+	if !ok || len(hc.Call.Args) != 1 {
+		return false
+	}
+	h := flow.Callee(hc)
+	if h == nil || len(h.Blocks) == 0 || h.Pkg == nil || h.Pkg.Pkg.Path() != load.PkgRoot || len(h.Params) != 1 || h.Signature.Results().Len() != 2 {
+		return false
+	}
+	lowered := isToLowerOf(hc.Call.Args[0], s)
+	if !lowered && flow.StripConv(hc.Call.Args[0]) != s && hc.Call.Args[0] != s {
+		return false
+	}
+	second := flow.ResultN(hc, 1)
+	if second == nil {
+		return false
+	}
+	isErr := flow.IsErrorType(h.Signature.Results().At(1).Type())
+	if isErr {
+		if nn, known := flow.ErrKnownAt(second, st); !known || nn {
+			return false
+		}
+	} else if pol, known := flow.CondHolds(flow.DomConds(st.Block()), second); !known || !pol {
+		return false
+	}
+	nSucc := 0
+	for _, ret := range flow.Returns(h) {
+		rs := flow.RetResults(ret)
+		success := false
+		if isErr {
+			if flow.IsNilConst(rs[1]) {
+				success = true
+			} else if !flow.KnownNonNilError(rs[1], ret.Block()) {
+				return false
+			}
+		} else {
+			k, isK := rs[1].(*ssa.Const)
+			if !isK || k.Value == nil {
+				return false
+			}
+			success = k.Value.String() == "true"
+		}
+		if !success {
+			continue
+		}
+		nSucc++
+		if !okAssign(rs[0], ret.Block(), h.Params[0], lowered) {
+			return false
+		}
+	}
+	return nSucc > 0
+}
+
 // reverseLookup: h(name string) (K, bool) returns (key, true) only for the row of the table whose value equals name, and
 // (anything, false) otherwise.
 func reverseLookup(h *ssa.Function, table *types.Var) bool {
@@ -210,35 +270,39 @@ func checkActionUnpack(e *Env, p *load.Program, table *types.Var) {
 				continue
 			}
 			stores++
-			// value: key of a ranged pair over the table
-			kx, ok := st.Val.(*ssa.Extract)
-			good := ok && kx.Index == 1
-			var nx *ssa.Next
-			if good {
-				nx, _ = kx.Tuple.(*ssa.Next)
-				good = nx != nil
-			}
-			if good {
+			// value: key of a ranged pair over the table, under the guard value-of-same-pair == lower(input)
+			okAssign := func(v ssa.Value, blk *ssa.BasicBlock, in ssa.Value, lowered bool) bool {
+				kx, ok := v.(*ssa.Extract)
+				if !ok || kx.Index != 1 {
+					return false
+				}
+				nx, _ := kx.Tuple.(*ssa.Next)
+				if nx == nil {
+					return false
+				}
 				rg, _ := nx.Iter.(*ssa.Range)
-				g := loadOfGlobal(rg.X)
-				good = rg != nil && g != nil && g.Object() == table
-			}
-			// guard: value-of-same-pair == lower(s), polarity true
-			guard := false
-			if good {
-				for _, c := range flow.DomConds(b) {
+				if rg == nil {
+					return false
+				}
+				if g := loadOfGlobal(rg.X); g == nil || g.Object() != table {
+					return false
+				}
+				for _, c := range flow.DomConds(blk) {
 					bo, ok := c.V.(*ssa.BinOp)
 					if !ok || bo.Op != token.EQL || !c.Pol {
 						continue
 					}
 					for _, pair := range [][2]ssa.Value{{bo.X, bo.Y}, {bo.Y, bo.X}} {
 						vx, ok := pair[0].(*ssa.Extract)
-						if ok && vx.Index == 2 && vx.Tuple == nx && isToLowerOf(pair[1], s) {
-							guard = true
+						if ok && vx.Index == 2 && vx.Tuple == nx && (isToLowerOf(pair[1], in) || (lowered && pair[1] == in)) {
+							return true
 						}
 					}
 				}
+				return false
 			}
+			good := okAssign(st.Val, b, s, false) || assignViaParser(st, s, okAssign)
+			guard := good
 			if !(good && guard) {
 				// the scan sits in a helper: *a = h(lower(s))#0 behind h(...)#1, where h returns (key, true) only for
 				// the table row whose name equals its argument
@@ -417,40 +481,39 @@ func checkOperations(e *Env, p *load.Program, pk *packages.Package) {
 				continue
 			}
 			stores++
-			// stored value: element of the Operations global
-			ld, ok := st.Val.(*ssa.UnOp)
-			good := ok && ld.Op == token.MUL
-			if good {
+			// stored value: element of the Operations global, under the case-insensitive equality test with the input
+			okAssign := func(v ssa.Value, blk *ssa.BasicBlock, in ssa.Value, lowered bool) bool {
+				ld, ok := v.(*ssa.UnOp)
+				if !ok || ld.Op != token.MUL {
+					return false
+				}
 				ia, ok := ld.X.(*ssa.IndexAddr)
-				good = ok
-				if good {
-					g := loadOfGlobal(ia.X)
-					good = g != nil && g.Object() == opsVar
+				if !ok {
+					return false
 				}
-			}
-			guard := false
-			if good {
-				for _, c := range flow.DomConds(b) {
-					bo, ok := c.V.(*ssa.BinOp)
-					if !ok || bo.Op != token.EQL || !c.Pol {
-						continue
-					}
-					for _, pair := range [][2]ssa.Value{{bo.X, bo.Y}, {bo.Y, bo.X}} {
-						if isToLowerOf(pair[0], ld) && isToLowerOf(pair[1], s) {
-							guard = true
+				if g := loadOfGlobal(ia.X); g == nil || g.Object() != opsVar {
+					return false
+				}
+				for _, c := range flow.DomConds(blk) {
+					if bo, ok := c.V.(*ssa.BinOp); ok && bo.Op == token.EQL && c.Pol {
+						for _, pair := range [][2]ssa.Value{{bo.X, bo.Y}, {bo.Y, bo.X}} {
+							if isToLowerOf(pair[0], ld) && (isToLowerOf(pair[1], in) || (lowered && flow.StripConv(pair[1]) == in)) {
+								return true
+							}
 						}
-						// strings.EqualFold(string(name), s) is accepted as well
 					}
-				}
-				for _, c := range flow.DomConds(b) {
+					// strings.EqualFold(string(name), s) is accepted as well
 					if call, ok := c.V.(*ssa.Call); ok && c.Pol && flow.CalleeIs(call, "strings", "EqualFold") {
 						a0, a1 := flow.StripConv(call.Call.Args[0]), flow.StripConv(call.Call.Args[1])
-						if (a0 == ld && a1 == s) || (a1 == ld && a0 == s) {
-							guard = true
+						if (a0 == ssa.Value(ld) && a1 == in) || (a1 == ssa.Value(ld) && a0 == in) {
+							return true
 						}
 					}
 				}
+				return false
 			}
+			good := okAssign(st.Val, b, s, false) || assignViaParser(st, s, okAssign)
+			guard := good
 			r.Check(good && guard, "E4.ops", "Operation.Unpack/assign", p.Pos(st.Pos()),
 				"*o is assigned the canonical element of Operations whose lower-cased spelling equals the lower-cased input, and only then",
 				"Operation.Unpack assigns *o without the case-insensitive equality test on the same element of Operations")
